@@ -66,8 +66,9 @@ def _always_removes(w, fi, table):
   """True when every normal path through UserActions helper `fi` calls
   self.doBulkRemoveRecord(<literal table>, ...)."""
   fn = w.fn_of(fi)
+  du = DefUse(fn)
   nodes = {n.id for (n, c, nm) in fn.calls() if nm == "self.doBulkRemoveRecord" and c.args and
-           H.const_value(c.args[0]) == (True, table)}
+           H.table_arg_value(fn, du, n.id, c.args[0]) == table}
   return bool(nodes) and fn.cfg.dominated_by(fn.cfg.exit.id, nodes)
 
 
@@ -169,7 +170,7 @@ def _removal_calls(w, fn, du, child, handles, own_table):
   out = []
   for (n, c, nm) in fn.calls():
     if nm == "self.doBulkRemoveRecord" and len(c.args) == 2:
-      if H.const_value(c.args[0]) == (True, child):
+      if H.table_arg_value(fn, du, n.id, c.args[0], own_table) == child:
         out.append((n, c.args[1]))
     elif isinstance(c.func, ast.Attribute) and c.func.attr == "remove" and \
         fn.type_of(c.func.value) == T.DOCMODEL and len(c.args) == 1:
@@ -190,7 +191,7 @@ def _removes_its_param(w, hfi, table):
   du = DefUse(fn)
   for (n, c, nm) in fn.calls():
     if nm == "self.doBulkRemoveRecord" and len(c.args) == 2 and \
-        H.const_value(c.args[0]) == (True, table) and \
+        H.table_arg_value(fn, du, n.id, c.args[0]) == table and \
         du.flows_from(lambda x: isinstance(x, ast.Name) and x.id == ps[1], c.args[1]):
       return True
   return False
@@ -252,9 +253,8 @@ def r2_cascade(run, w):
                                       for e in cfg.nodes[x].exprs if e is not None
                                       for y in ast.walk(e))}
     parent_rm = {m.id for (m, c, nm) in fn.calls() if nm == "self.doBulkRemoveRecord" and c.args
-                 and (H.const_value(c.args[0]) == (True, parent) or
-                      H.table_arg_value(fn, du, m.id, c.args[0], parent if fn is top else None)
-                      == parent)}
+                 and H.table_arg_value(fn, du, m.id, c.args[0], parent if fn is top else None)
+                 == parent}
     late = readers & cfg.reach_after(parent_rm) if parent_rm else set()
     run.ob(R2, fn.qualname, "%s read before %s rows are removed" % (site, parent),
            "the accessor is a lookup by the parent's id; once the parent row is gone (and "
@@ -332,12 +332,25 @@ def r3_auto_remove(run, w):
          cfg.dominated_by(cfg.exit.id, {rn.id}), fi=ar.fi)
   rets = [n for n in cfg.nodes if n.kind == "return"]
   def truth_of_records(e):
+    """True: the truth of the removed-records list; False: something else; None: unknown."""
     e = H.strip_bool(e)
+    if isinstance(e, ast.Compare) and len(e.ops) == 1 and len(e.comparators) == 1 and \
+        isinstance(e.left, ast.Call) and dotted(e.left.func) == "len":
+      k = H.const_value(e.comparators[0])
+      if (isinstance(e.ops[0], (ast.Gt, ast.NotEq)) and k == (True, 0)) or \
+          (isinstance(e.ops[0], ast.GtE) and k == (True, 1)):
+        e = e.left
     if isinstance(e, ast.Call) and dotted(e.func) == "len" and len(e.args) == 1:
       e = e.args[0]
-    return isinstance(e, ast.Name) and text(e) == text(rc.args[0])
-  ok = bool(rets) and all(r.stmt.value is not None and truth_of_records(r.stmt.value) for r in rets) \
-      and cfg.dominated_by(cfg.exit.id, {r.id for r in rets})
+    if isinstance(e, ast.Name) and text(e) == text(rc.args[0]):
+      return True
+    if isinstance(e, (ast.Constant, ast.Name, ast.Attribute, ast.IfExp)):
+      return False
+    return None
+  verdicts = [truth_of_records(r.stmt.value) if r.stmt.value is not None else False for r in rets]
+  if any(v is None for v in verdicts):
+    raise AnalysisError("apply_auto_removes: cannot interpret the returned value")
+  ok = bool(rets) and all(verdicts) and cfg.dominated_by(cfg.exit.id, {r.id for r in rets})
   run.ob(R3, ar.qualname, "return bool(<removed records>)", "the caller is told whether this "
          "round removed anything (it loops while that is true)", ok, fi=ar.fi)
   # who calls apply_auto_removes, and how
